@@ -328,6 +328,94 @@ fn main() {
                         let v = limiter::Rate { burst: case["burst"].as_u64().unwrap() as usize, refresh };
                         roundtrip::<limiter::Rate>("limiter::Rate", &v, &mut rng, &mut rep);
                     }
+                    "proposal" => {
+                        let mut v: validator::v2::LeaderProposal = rng.gen();
+                        v.proposal_payload = match case["payload"].as_str().unwrap() {
+                            "absent" => None,
+                            "empty" => Some(validator::Payload(vec![])),
+                            "one_byte" => Some(validator::Payload(vec![0])),
+                            _ => Some(validator::Payload(vec![0xab; 70_000])),
+                        };
+                        v.justification = if case["just"] == "commit" { validator::v2::ProposalJustification::Commit(rng.gen()) } else { validator::v2::ProposalJustification::Timeout(rng.gen()) };
+                        roundtrip::<validator::v2::LeaderProposal>("LeaderProposal", &v, &mut rng, &mut rep);
+                        let key: validator::SecretKey = rng.gen();
+                        let signed = key.sign_msg(validator::ConsensusMsg::V2(validator::v2::ChonkyMsg::LeaderProposal(v)));
+                        roundtrip::<validator::Signed<validator::ConsensusMsg>>("Signed<ConsensusMsg>", &signed, &mut rng, &mut rep);
+                        rep.evaluations += 1;
+                        if let Ok(d) = zksync_protobuf::decode::<validator::Signed<validator::ConsensusMsg>>(&zksync_protobuf::encode(&signed)) {
+                            if d.verify().is_err() {
+                                rep.fail("roundtrip_signature_breaks", "an honestly signed LeaderProposal no longer verifies after encode + decode (hash of the decoded value differs)", json!({"mode": "std", "case": case}));
+                            }
+                        }
+                    }
+                    "timeout" => {
+                        let mut v: validator::v2::ReplicaTimeout = rng.gen();
+                        v.high_vote = if case["hv"].as_bool().unwrap() { Some(rng.gen()) } else { None };
+                        v.high_qc = if case["hq"].as_bool().unwrap() { Some(rng.gen()) } else { None };
+                        v.view.number = validator::ViewNumber(if case["view"] == "max" { u64::MAX } else { 0 });
+                        roundtrip::<validator::v2::ReplicaTimeout>("ReplicaTimeout", &v, &mut rng, &mut rep);
+                    }
+                    "commit" => {
+                        let mut v: validator::v2::ReplicaCommit = rng.gen();
+                        let x = |k: &str| if case[k] == "max" { u64::MAX } else { 0 };
+                        v.view.number = validator::ViewNumber(x("view"));
+                        v.view.epoch = validator::EpochNumber(x("epoch"));
+                        v.proposal.number = validator::BlockNumber(x("number"));
+                        roundtrip::<validator::v2::ReplicaCommit>("ReplicaCommit", &v, &mut rng, &mut rep);
+                    }
+                    "block" => {
+                        let mut v: validator::v2::FinalBlock = rng.gen();
+                        v.payload = match case["payload"].as_str().unwrap() {
+                            "empty" => validator::Payload(vec![]),
+                            "one_byte" => validator::Payload(vec![0]),
+                            _ => validator::Payload(vec![0xcd; 70_000]),
+                        };
+                        roundtrip::<validator::v2::FinalBlock>("FinalBlock", &v, &mut rng, &mut rep);
+                        roundtrip::<validator::Block>("Block", &validator::Block::FinalV2(v), &mut rng, &mut rep);
+                    }
+                    "tqc" => {
+                        let mut v: validator::v2::TimeoutQC = rng.gen();
+                        let want = case["groups"].as_u64().unwrap() as usize;
+                        while v.map.len() > want {
+                            let k = v.map.keys().next().unwrap().clone();
+                            v.map.remove(&k);
+                        }
+                        while v.map.len() < want {
+                            let mut t: validator::v2::ReplicaTimeout = rng.gen();
+                            t.view = v.view.clone();
+                            v.map.insert(t, rng.gen());
+                        }
+                        roundtrip::<validator::v2::TimeoutQC>("TimeoutQC", &v, &mut rng, &mut rep);
+                    }
+                    "netaddr" => {
+                        let key: validator::SecretKey = rng.gen();
+                        let ts = if case["ts"] == "max" { time::UNIX_EPOCH + time::Duration::seconds(i64::MAX / 4) } else { time::UNIX_EPOCH };
+                        let na = validator::NetAddress { addr: "127.0.0.1:0".parse().unwrap(), version: if case["version"] == "max" { u64::MAX } else { 0 }, timestamp: ts };
+                        roundtrip::<validator::Signed<validator::NetAddress>>("Signed<NetAddress>", &key.sign_msg(na), &mut rng, &mut rep);
+                    }
+                    "genesis" => {
+                        let mut g: validator::Genesis = rng.gen();
+                        let raw = validator::GenesisRaw {
+                            chain_id: g.chain_id,
+                            fork_number: g.fork_number,
+                            protocol_version: g.protocol_version,
+                            first_block: validator::BlockNumber(if case["first"] == "max" { u64::MAX } else { 0 }),
+                            validators_schedule: if case["schedule"].as_bool().unwrap() { Some(rng.gen()) } else { None },
+                        };
+                        g = raw.with_hash();
+                        roundtrip::<validator::Genesis>("Genesis", &g, &mut rng, &mut rep);
+                    }
+                    "replica_state" => {
+                        let mut v: validator::v2::ChonkyV2State = rng.gen();
+                        let pay = if case["payload"] == "empty" { vec![] } else { vec![7u8] };
+                        v.proposals = (0..case["proposals"].as_u64().unwrap()).map(|i| validator::Proposal { number: validator::BlockNumber(i), payload: validator::Payload(pay.clone()) }).collect();
+                        if !case["certs"].as_bool().unwrap() {
+                            v.high_vote = None;
+                            v.high_commit_qc = None;
+                            v.high_timeout_qc = None;
+                        }
+                        roundtrip::<validator::v2::ChonkyV2State>("ChonkyV2State", &v, &mut rng, &mut rep);
+                    }
                     _ => rep.count("std_case_unknown_kind"),
                 }
             }
